@@ -56,21 +56,24 @@ def write_pgen(prefix, samples, variants, data):
     """independent PGEN writer (pgenlib directly); calls must be fully missing or fully present"""
     import pgenlib
 
-    prefix = Path(prefix)
-    with open(prefix.with_suffix(".psam"), "w") as f:
-        f.write("#IID\n" + "".join(s + "\n" for s in samples))
-    with open(prefix.with_suffix(".pvar"), "w") as f:
-        for c in sorted({v[1] for v in variants}, key=lambda c: (len(c), c)):
-            f.write(f"##contig=<ID={c}>\n")
-        f.write("#CHROM\tPOS\tID\tREF\tALT\n")
-        for vid, chrom, pos, alleles in variants:
-            f.write(f"{chrom}\t{pos}\t{vid}\t{alleles[0]}\t{','.join(alleles[1:]) or '.'}\n")
+    from . import common as C
+
+    prefix = str(prefix)  # may hold dots of its own (cohort.chr1): the extensions are appended, never substituted
+    key = [list(samples), [list(map(str, v[:3])) for v in variants]]
+    with open(prefix + ".psam", "w") as f:
+        f.write(C.text_ending(key, "psam", "#IID\n" + "".join(s + "\n" for s in samples)))
+    txt = "".join(f"##contig=<ID={c}>\n" for c in sorted({v[1] for v in variants}, key=lambda c: (len(c), c)))
+    txt += "#CHROM\tPOS\tID\tREF\tALT\n"
+    for vid, chrom, pos, alleles in variants:
+        txt += f"{chrom}\t{pos}\t{vid}\t{alleles[0]}\t{','.join(alleles[1:]) or '.'}\n"
+    with open(prefix + ".pvar", "w") as f:
+        f.write(C.text_ending(key, "pvar", txt))  # the minimal five-column layout, for a quarter of the files without final newline
     ns, nv = len(samples), len(variants)
     if nv == 0:
-        open(prefix.with_suffix(".pgen"), "wb").close()
+        open(prefix + ".pgen", "wb").close()
         return
     max_ct = max(len(v[3]) for v in variants)
-    with pgenlib.PgenWriter(filename=bytes(str(prefix.with_suffix(".pgen")), "utf8"), sample_ct=ns, variant_ct=nv, allele_ct_limit=max(max_ct, 2), nonref_flags=False, hardcall_phase_present=True) as w:
+    with pgenlib.PgenWriter(filename=bytes(prefix + ".pgen", "utf8"), sample_ct=ns, variant_ct=nv, allele_ct_limit=max(max_ct, 2), nonref_flags=False, hardcall_phase_present=True) as w:
         for j in range(nv):
             al = np.empty(2 * ns, dtype=np.int32)
             ph = np.empty(ns, dtype=np.uint8)
@@ -80,3 +83,12 @@ def write_pgen(prefix, samples, variants, data):
                 al[2 * i + 1] = -9 if b == 255 else b
                 ph[i] = 1 if p else 0
             w.append_partially_phased(al, ph.astype(np.bool_), allele_ct=max(len(variants[j][3]), 2))
+
+
+def decoy_fileset(prefix):
+    """an unrelated, older fileset under the name that is left when the inner part of a dotted name is cut off (`g` beside
+    `g.chr1`): a PGEN triple with one sample and one variant, and a breakpoints file with labels no model knows"""
+    prefix = str(prefix)
+    write_pgen(prefix, ["DECOY"], [("decoy_variant", "9", 999, ["T", "G"])], [[(1, 1, 1)]])
+    with open(prefix + ".bp", "w") as f:
+        f.write("DECOY_1\nZZZ\t9\t2147483647\t1.0\nDECOY_2\nZZZ\t9\t2147483647\t1.0\n")
